@@ -9,7 +9,9 @@ extra={'1':'',
  '2':"An automated checker will be run against your change. It enumerates small scopes exhaustively (short inputs over a class alphabet, short operation sequences) and compares with a reference model. Aim for defects that are likely to ESCAPE small-scope enumeration: ones keyed on a specific real-world value, a long input, a rarely used entry point, a particular multi-step history, or two cooperating sites that each look fine alone.\n",
  '5':"An automated bounded-exhaustive checker with a reference model will be run against your change; it enumerates short inputs, single and double edits of well-formed inputs, every table row, pairs of consecutive calls and short mutation histories, through all the main entry points and the common trait impls. To escape it, make the change depend on something LARGER or RARER than that: a count threshold (more than N variants / keywords / attributes / tags / tfields, a Vec crossing a capacity boundary, a value list of several subtags), a history of at least three or four specific calls (state left behind by a failed call, by clear_* followed by set_*, by clone()/clone_from, by into_parts/from_parts, by maximize followed by a mutation), an iterator method other than next() (len, size_hint, rev, nth, last), a specific row or a specific pair of rows of the CLDR tables, a specific combination of three or more otherwise unremarkable subtags, the facade crates and their feature forwarding, or the Debug/Default/Clone/Hash/Borrow/AsRef impls -- whichever can break THIS property.\n",
  '4':"An automated bounded-exhaustive checker with a reference model will be run against your change; it already covers the main parsers and the obvious sites well. Put your change somewhere LESS obvious: a trait impl (Ord, PartialOrd, Hash, PartialEq<&str>, PartialEq<str>, AsRef, From, TryFrom, FromStr, Display, Default, Clone), a constructor or destructor (from_parts, from_raw_parts_unchecked, into_parts), a rarely used getter or mutator, the facade crates (unic-langid, unic-locale) and their re-exports and macro_rules, the proc-macro crates, the generator binaries under src/bin together with the regenerated table, or feature-gated code -- whichever can break THIS property. It should need something specific to manifest: a particular multi-step sequence of operations, an unusual input, a particular feature configuration, a specific relation between two values (one a prefix of the other, same object on both sides, neighbours in a table), or two cooperating sites that each look fine alone.\n",
- '3':"An automated bounded-exhaustive checker with a reference model will be run against your change. Aim for a change that needs something specific to manifest: a particular multi-step sequence of operations, an unusual input, a rarely used public entry point or trait impl, a particular feature configuration, or two cooperating sites that each look fine alone. Avoid the obvious spots (first thing one would mutate).\n"}[rnd]
+ '3':"An automated bounded-exhaustive checker with a reference model will be run against your change. Aim for a change that needs something specific to manifest: a particular multi-step sequence of operations, an unusual input, a rarely used public entry point or trait impl, a particular feature configuration, or two cooperating sites that each look fine alone. Avoid the obvious spots (first thing one would mutate).\n"}
+extra['6']=extra['5']
+extra=extra[rnd]
 print(f"""You are helping to evaluate a verification tool for the Rust workspace zbraniecki/unic-locale (crates that parse, canonicalize and serialize Unicode language and locale identifiers). Your job is to write two *independent*, realistic, subtle code changes ("a" and "b"), each of which BREAKS the following semantic property of the library while the workspace still compiles and its whole existing test suite still passes.
 
 PROPERTY {pid}: {p['title']}
